@@ -236,8 +236,8 @@ func c05WinWW(fs []string) string {
 	if err != nil {
 		return fs[0] + " setup-failed:" + strings.ReplaceAll(err.Error(), " ", "_")
 	}
-	defer client.Close()
-	defer server.Close()
+	// a writer that panicked inside Write may have left the write mutex locked: do not wait for Close
+	defer func() { go client.Close(); go server.Close() }()
 	wr, rd, wc, half := client, server, cw, c2s
 	if role == "s" {
 		wr, rd, wc, half = server, client, sw, s2c
